@@ -164,6 +164,20 @@ impl WorldC {
                 // own: whatever a server memoised while answering before the import must not survive it
                 let warm = ctx.ch.chance(1, 2);
                 let reg = if cfg.registration.is_empty() { cfg.tags.clone() } else { cfg.registration.clone() };
+                // ... and half of the warm ones were created with tags the primary's key was NOT created with: after
+                // the import the replica is the exporter (same public key, same registered tags), nothing of its own
+                // registration may survive
+                let mut reg = reg;
+                if warm && ctx.ch.chance(1, 2) {
+                    let n = 1 + ctx.ch.index(3);
+                    for _ in 0..n {
+                        let t = ctx.ch.draw(256) as u8;
+                        if !reg.contains(&t) {
+                            reg.push(t);
+                        }
+                    }
+                    ctx.stats.probe("warm_replica_created_with_other_tags");
+                }
                 let mut server = ctx.os.with_node(node as u64, || pp::Server::new(if warm { reg.clone() } else { vec![] })).map_err(|e| Violation::new("c.setup", "server_new", e.to_string()))?;
                 if warm {
                     let (wp, _) = ctx.os.with_node(node as u64, || pp::Client::blind(b"warm-up"));
